@@ -289,6 +289,7 @@ func runInBubble(spec *RunSpec, res *RunResult) {
 		}
 
 		var ws *coercion.Workstream
+		crashesBefore := w.CrashCount()
 		newDone := make(chan struct{})
 		go func() {
 			defer close(newDone)
@@ -307,10 +308,15 @@ func runInBubble(spec *RunSpec, res *RunResult) {
 		crashed := false
 		select {
 		case <-newDone:
-		case <-w.crashCh:
+		case <-w.CrashSig(gen):
 			crashed = true
 		case <-hangCh:
 			hang = true
+		}
+		// Several arms can be ready at once (a death releases the clients of the dead process,
+		// which then finish): the verdict is the death counter, not the runtime's pick.
+		if !hang && w.CrashCount() > crashesBefore {
+			crashed = true
 		}
 		if hang {
 			break
@@ -361,10 +367,13 @@ func runInBubble(spec *RunSpec, res *RunResult) {
 			go func() { wg.Wait(); close(clientsDone) }()
 			select {
 			case <-clientsDone:
-			case <-w.crashCh:
+			case <-w.CrashSig(gen):
 				crashed = true
 			case <-hangCh:
 				hang = true
+			}
+			if !hang && w.CrashCount() > crashesBefore {
+				crashed = true
 			}
 		}
 		if hang {
